@@ -163,7 +163,39 @@ def r_variant_tree(model, rep):
     app = [ev for ev in cx.events if ev.kind == "call" and ev.value[1][0] == "attr" and ev.value[1][2] == "append"
            and facts.active_at(ev, V) and ev.loops]
     ok, msg = len(app) == 1, "top-level variant selection changed"
-    if ok:
+    comp_form = None
+    if not app:
+        # the selection spelled as a comprehension (or a loop that does nothing but collect, which reads as one): the list the
+        # variants are then created from
+        mk = [ev for ev in cx.events if ev.kind == "call" and ev.value[1] == ("attr", S, "add") and ev.loops]
+        if len(mk) == 1:
+            it = T.unwrap(mk[0].loops[-1][1])
+            while it[0] == "call" and it[1] in (("global", "sorted"), ("global", "list")) and len(it[2]) == 1:
+                it = T.unwrap(it[2][0])
+            if it[0] == "comp" and it[1] == "list" and len(it[3]) == 1 and it[3][0][1] == sec:
+                comp_form = it
+    if comp_form is not None:
+        var = ("bound", comp_form[3][0][0][1])
+        conds = []
+        for c in comp_form[3][0][2]:
+            c = facts.simplify_at_version(c, V)
+            if c[0] == "const" and c[1]:
+                continue
+            conds.append(facts.canon_guard_pair((c, True)))
+        ok = comp_form[2] == var and len(conds) == 1 and not conds[0][1] and conds[0][0][0] == "cmp" and conds[0][0][1] == ("in",) \
+            and conds[0][0][2][0] == var
+        msg = "top-level variants must be exactly the entries whose UID is not a collected child UID"
+        if ok:
+            cset = conds[0][0][2][1]
+            ok = False
+            msg = "child UIDs must be collected as '%s-%s' % (entry['uid'], child) over every entry's 'variants' list"
+            for c in facts.collections_of(cx, cset):
+                if len(c.gens) == 2 and not c.conds and c.its[0] == sec:
+                    var2 = ("sub", sec, c.els[0])
+                    if c.its[1] == ("call", ("attr", var2, "get"), (("const", "variants"), ("list", ())), ()) \
+                            and c.elt == T.fmt(("sub", var2, ("const", "uid")), "-", c.els[1]):
+                        ok = True
+    elif ok:
         # (a condition that is itself chosen by the format version - a predicate helper with a legacy branch - is what it says
         # for the current version)
         ng = facts.guards_at_version(app[0], V) or []
